@@ -11,9 +11,14 @@ import (
 	"os"
 
 	"github.com/elastos/Elastos.ELA/common"
+	"github.com/elastos/Elastos.ELA/core"
+	"github.com/elastos/Elastos.ELA/core/contract"
 	"github.com/elastos/Elastos.ELA/core/types"
 	common2 "github.com/elastos/Elastos.ELA/core/types/common"
+	"github.com/elastos/Elastos.ELA/core/types/functions"
 	"github.com/elastos/Elastos.ELA/core/types/interfaces"
+	"github.com/elastos/Elastos.ELA/core/types/outputpayload"
+	"github.com/elastos/Elastos.ELA/core/types/payload"
 	"verif/harness/internal/rep"
 	"verif/harness/internal/stack"
 )
@@ -71,7 +76,8 @@ func main() {
 	src := common2.OutPoint{TxID: fund.Hash(), Index: 0}
 	tipNode := n.Chain.GetBestChain()
 	cases := rep.ReadCases(os.Args[2])
-	agree, wraps := 0, 0
+	agree, wraps, xrej := 0, 0, 0
+	n.Params.NewCrossChainStartHeight = 1
 	var sample interface{}
 	for ci, c := range cases {
 		var outs []stack.Out
@@ -127,12 +133,48 @@ func main() {
 				verdicts["block"] = nil
 			}
 		}()
+		// (4) another transaction type with its own CheckTransactionOutput: a cross-chain
+		// transfer (payload v1) carrying the same amounts, first output to a side chain
+		func() {
+			defer func() {
+				if r := recover(); r != nil {
+					pan = r
+				}
+			}()
+			var xouts []*common2.Output
+			for i, o := range outs {
+				if i == 0 {
+					var xh common.Uint168
+					copy(xh[:], []byte("Kverif-c01-side-chain"))
+					xh[0] = byte(contract.PrefixCrossChain)
+					xouts = append(xouts, &common2.Output{AssetID: core.ELAAssetID, Value: o.Value, ProgramHash: xh, Type: common2.OTCrossChain,
+						Payload: &outputpayload.CrossChainOutput{Version: outputpayload.CrossChainOutputVersion,
+							TargetAddress: "EUmAvDLqjLLwHUjXaGDFMV6HKRrnGUhVxD", TargetAmount: o.Value - n.Params.MinCrossChainTxFee}})
+				} else {
+					xouts = append(xouts, &common2.Output{AssetID: core.ELAAssetID, Value: o.Value, ProgramHash: o.To, Type: common2.OTNone,
+						Payload: &outputpayload.DefaultOutput{}})
+				}
+			}
+			attr := common2.NewAttribute(common2.Nonce, []byte(fmt.Sprint("x", ci)))
+			xtx := functions.CreateTransaction(common2.TxVersion09, common2.TransferCrossChainAsset, payload.TransferCrossChainVersionV1,
+				&payload.TransferCrossChainAsset{}, []*common2.Attribute{&attr}, []*common2.Input{{Previous: src}}, xouts, 0, nil)
+			if e := stack.Sign(xtx, []*stack.Key{k}); e != nil {
+				return
+			}
+			if e := n.Chain.CheckTransactionSanity(height, xtx); e != nil {
+				verdicts["cross-chain-transfer"] = e
+			} else if _, e := n.Chain.CheckTransactionContext(height, xtx, 0, 0); e != nil {
+				verdicts["cross-chain-transfer"] = e
+			} else {
+				verdicts["cross-chain-transfer"] = nil
+			}
+		}()
 		if pan != nil {
 			rep.Violation("C03:panic:value-checks", fmt.Sprintf("validation panicked: %v", pan), c)
 			continue
 		}
 		ok := true
-		for _, path := range []string{"tx-checks", "mempool", "block"} {
+		for _, path := range []string{"tx-checks", "mempool", "block", "cross-chain-transfer"} {
 			e, ran := verdicts[path]
 			if !ran {
 				continue
@@ -146,6 +188,8 @@ func main() {
 				}
 				rep.Violation(key, fmt.Sprintf("%s accepted outputs %v (hi*2^60 + lo*0.01 ELA) spending 0.1 ELA: exact fee is negative", path, rep.List(c, "outs")), c2)
 				ok = false
+			case e != nil && exact && path == "cross-chain-transfer":
+				xrej++ // refused by a rule of its own (amounts below the cross-chain minimum ...): inconclusive
 			case e != nil && exact && path != "block":
 				rep.Mismatch(fmt.Sprintf("%s rejected (%v) a transaction whose outputs are covered by its input", path, e), c2)
 				ok = false
@@ -161,5 +205,5 @@ func main() {
 			sample = c
 		}
 	}
-	rep.Summary(len(cases), map[string]interface{}{"agree": agree, "overflow_cases": wraps}, sample)
+	rep.Summary(len(cases), map[string]interface{}{"agree": agree, "overflow_cases": wraps, "cross_chain_rejected_for_own_rules": xrej}, sample)
 }
